@@ -13,6 +13,8 @@
                          the pointer is non-null AND the length is non-zero
   C15.d error protocol   every entry returning int returns 0 on the native Ok path and throw_err's value on the native Err path;
                          throw_err returns -1 and stores the out-pointer only when it is non-null
+  C15.e description      CErr's field is a CString; throw_err replaces it, by whole assignment, with CString::new(<the error being
+                         reported>.to_string()), and never takes a mutable borrow of it (appending to what an earlier failure left)
 
 Not decided: equality of results with the native API over whole hook scripts; behaviour when a hook breaks the documented preconditions.
 """
@@ -485,6 +487,58 @@ def error_rule(ctx, facts, cfg):
         ctx.violation(rid, '<floor>', 'int-returning entries', 'found %d extern "C" entries returning int, expected 11' % n, kind='below-floor')
 
 
+def description_rule(ctx, facts, cfg):
+    """C15.e: what a failing call leaves behind for error_description."""
+    rid = 'C15.e'
+    adt = facts.adts.get('c_abi::CErr')
+    if adt is None or not adt.get('variants'):
+        ctx.missing(rid, 'c_abi::CErr')
+        return
+    fields = adt['variants'][0]['fields']
+    for fd in fields:
+        ok = fd['ty'].get('adt') == 'std::ffi::CString'
+        ctx.instance(rid, 'CErr.%s has type %s (NUL-terminated by construction)' % (fd['name'], fd['ty'].get('s')), ok=ok, site=adt.get('at'))
+        if not ok:
+            ctx.violation(rid, 'c_abi::CErr', 'field-type:' + fd['name'], 'CErr.%s is a %s, not a CString: that the bytes handed to C end in a NUL is no longer guaranteed by the type' % (fd['name'], fd['ty'].get('s')),
+                          site=adt.get('at'), kind='undecided', config=cfg)
+    bodies = [(k, f) for k, f in sorted(facts.fns.items()) if k == 'c_abi::throw_err' or k.startswith('c_abi::throw_err::')]
+    if not bodies:
+        ctx.missing(rid, 'c_abi::throw_err')
+        return
+    stores = 0
+    for key, f in bodies:
+        defs = F.single_defs(f)
+        for bi, b in F.blocks(f):
+            for st in b['stmts']:
+                if st['k'] != 'assign':
+                    continue
+                fl = [x for x in F.fields_of(st['place']) if x[0] == 'c_abi::CErr']
+                if fl and F.last_field(st['place']) == fl[-1]:
+                    stores += 1
+                    rs = F.roots(f, defs, st['rv']['x']) if st['rv']['k'] == 'use' else []
+                    from_err = False
+                    for r in rs:
+                        if r[0] == 'call' and r[1] == 'std::ffi::CString::new' and r[2]['args']:
+                            inner = F.roots(f, defs, r[2]['args'][0])
+                            for r2 in inner:
+                                if r2[0] == 'call' and (r2[1].endswith('ToString>::to_string') or r2[1].endswith('::to_string') or 'fmt::format' in r2[1]) and r2[2]['args']:
+                                    src = F.roots(f, defs, r2[2]['args'][0])
+                                    if src and all(x[0] == 'param' or (x[0] == 'load' and x[1].get('local') == 1) for x in src):
+                                        from_err = True
+                    ok = bool(rs) and from_err
+                    ctx.instance(rid, '%s: CErr.%s is replaced by CString::new(<the error>.to_string())' % (key.split('::', 1)[-1], fl[-1][1]), ok=ok, site=st.get('at'))
+                    if not ok:
+                        ctx.violation(rid, key, 'store-not-from-error:' + fl[-1][1], 'throw_err stores into CErr.%s a value that is not CString::new(<the error being reported>.to_string()) (sources: %s): the retrievable '
+                                      'description is not that of the failure just reported' % (fl[-1][1], [str(r[1])[:50] for r in rs]), site=st.get('at'), config=cfg)
+                if st['rv']['k'] == 'ref' and st['rv'].get('mut'):
+                    fl = [x for x in F.fields_of(st['rv']['place']) if x[0] == 'c_abi::CErr']
+                    if fl:
+                        ctx.violation(rid, key, 'slot-field-borrowed-mutably:' + fl[-1][1], 'throw_err takes `&mut` of CErr.%s instead of replacing it: text written through the borrow is added to what earlier failures left there, '
+                                      'and error_description keeps returning the old start' % fl[-1][1], site=st.get('at'), config=cfg)
+    if stores < 1:
+        ctx.violation(rid, 'c_abi::throw_err', 'no-replacement', 'throw_err never assigns a field of CErr: the description of an earlier failure is not replaced by the one being reported', config=cfg)
+
+
 def run(ctx):
     for cfg in ctx.configs():
         facts = ctx.facts(cfg)
@@ -492,5 +546,6 @@ def run(ctx):
         dispatch_rule(ctx, facts, cfg)
         buffers_rule(ctx, facts, cfg)
         error_rule(ctx, facts, cfg)
+        description_rule(ctx, facts, cfg)
     ctx.trust('clang 14 JSON AST of src/bin/c_hook/c_hook.h; tables/fn_table_map.json (entry -> native operation)')
     ctx.assume('hooks respect the documented preconditions (valid pointers, capacities as stated)')
